@@ -3,11 +3,10 @@
     triplets).  Verdict 0 iff
        |p(x1) - p(x2)| <= G1 + G2 + S12 + S21
     where G_i is the gap tolerance that run i's Solved verdict guarantees and
-       S_ij = tol_feas * ( max(1, |q|_inf + |x_j| + |z_j|) * |x_i|
-                         + max(1, |b|_inf + |x_i| + |s_i|) * |z_j| )
+       S_ij = rd_j * |x_i| + rp_i * |z_j|
     is the explicit bound on the residual slack of theorem C05_objectives_agree that the
-    documented feasibility test implies (2-norms bounded from above by certified dyadic
-    square roots). *)
+    documented feasibility test of each run implies (|r_dj' x_i| <= |r_dj| |x_i| etc.;
+    2-norms bounded from above by certified dyadic square roots). *)
 From Coq Require Import List NArith ZArith Bool.
 Import ListNotations.
 Require Import Clarabel.Base.Dyadic Clarabel.Newton.Check.
@@ -17,22 +16,30 @@ Definition norm2_up (v : list dy) : dy := dsqrt_up (dsumsq v).
 Definition pobj_d (n : N) (P : list trip) (q x : list dy) : dy :=
   dadd (dshift (ddot x (spmv n P x)) (-1)) (ddot q x).
 
-Definition slack_bound (tol_feas : dy) (q b xi si xj zj : list dy) : dy :=
-  let nxi := norm2_up xi in
-  let nzj := norm2_up zj in
-  dmul tol_feas
-    (dadd (dmul (dmax d1 (dadd (dadd (norminf q) (norm2_up xj)) nzj)) nxi)
-          (dmul (dmax d1 (dadd (dadd (norminf b) nxi) (norm2_up si))) nzj)).
+(** [rp_i], [rd_i]: the bounds on the 2-norms of run i's primal and dual residuals (in base
+    units) that its own Solved verdict guarantees:
+      rp_i = tol_feas * max(1, |b|_inf + |x_i| + |s_i|)           (run i's own data and point)
+      rd_i = tol_feas * max(1, |q_i|_inf + |x_i| + |z_i|) / lambda_i
+    They are computed from run i's own (possibly rescaled) data by the harness. *)
+Definition slack_bound (rp_i rd_j : dy) (xi zj : list dy) : dy :=
+  dadd (dmul rd_j (norm2_up xi)) (dmul rp_i (norm2_up zj)).
 
 Definition c_cross (n m : N) (Ptriu A : list trip) (q b : list dy)
-           (tol_feas g1 g2 : dy)
+           (g1 g2 rp1 rd1 rp2 rd2 : dy)
+           (o1 o2 : dy)
            (x1 s1 z1 x2 s2 z2 : list dy) : N :=
   let P := symT Ptriu in
   let p1 := pobj_d n P q x1 in
   let p2 := pobj_d n P q x2 in
   let bound := dadd (dadd g1 g2)
-                    (dadd (slack_bound tol_feas q b x1 s1 x2 z2) (slack_bound tol_feas q b x2 s2 x1 z1)) in
-  if dleb (dabs (dsub p1 p2)) bound then 0%N else 1%N.
+                    (dadd (slack_bound rp1 rd2 x1 z2) (slack_bound rp2 rd1 x2 z1)) in
+  (* the REPORTED objective values (o1, o2, in base units) must agree within the same bound,
+     and each within its own gap tolerance of the objective recomputed from its point *)
+  if dleb (dabs (dsub p1 p2)) bound
+     && dleb (dabs (dsub o1 o2)) (dadd bound (dshift (dadd (dabs o1) (dabs o2)) (-30)))
+     && dleb (dabs (dsub o1 p1)) (dadd g1 (dshift (dadd (dabs o1) d1) (-30)))
+     && dleb (dabs (dsub o2 p2)) (dadd g2 (dshift (dadd (dabs o2) d1) (-30)))
+  then 0%N else 1%N.
 
 (** same verdict class: 0 solved-like (Solved / AlmostSolved), 1 primal infeasible-like,
     2 dual infeasible-like, 3 anything else *)
